@@ -342,6 +342,12 @@ fn wrap_case<B: Backend>(cx: &mut Ctx, rng: &mut Prng, pairs: &[keys::Pair]) {
         let cost = if B::VER == 1 || B::VER == 3 { raw } else { (raw.0 * 1024, raw.1, raw.2) };
         (vec![b"".to_vec(), b"hunter2".to_vec(), rng.bytes(40)][klen % 3].clone(), Some(cost))
     };
+    // several Argon2 lanes: libsodium has no such parameter, so only the RustCrypto evaluator can follow the specification
+    // there, and paseto-v4-sodium may legitimately refuse to wrap with it (then nothing is produced and nothing is recorded)
+    let lanes = cost.map(|c| (B::VER == 2 || B::VER == 4) && c.2 != 1).unwrap_or(false);
+    if lanes && fam == Fam::Native {
+        return;
+    }
     let mut base: Inputs = HashMap::new();
     base.insert(if kind == "pie" { "wk" } else { "pw" }.into(), with.clone());
     base.insert("ptk".into(), ptk.clone());
@@ -366,7 +372,14 @@ fn wrap_case<B: Backend>(cx: &mut Ctx, rng: &mut Prng, pairs: &[keys::Pair]) {
                 None => cx.emit("backward", "equal", false, json!({"real_len": blob.len()})),
             }
         }
-        Err(e) => cx.emit("backward", "equal", false, json!({"real_error": e})),
+        Err(e) => {
+            if !lanes {
+                cx.emit("backward", "equal", false, json!({"real_error": e}))
+            }
+        }
+    }
+    if lanes {
+        return;
     }
     // forward with scripted randomness (getrandom-0.3 backends): the drawn bytes are the embedded fields
     if B::GETRANDOM03 {
